@@ -38,8 +38,17 @@ fi
 echo "demo with change: exit $DM ; without: exit $DC"
 echo "tests with change: $TESTS"
 [ -n "$FAILED" ] && echo "UNEXPECTED TEST FAILURES: $FAILED"
-git -C /repo apply $SRC/patch.diff
 RES=""
+if [ -n "$SCRATCH_CHECK" ]; then
+  # /repo must stay untouched (e.g. a thorough sweep is rebuilding from it):
+  # the quick check runs against a scratch copy of /repo with the patch applied
+  for C in $ID $EXTRA; do
+    OUT=$(python3 tools/trypatch.py $C $SRC/patch.diff ${SHARDS:-8})
+    echo "check $C (scratch copy): $(echo "$OUT" | cut -c1-400)"
+    case "$OUT" in *" caught "*) RES="$RES $C:rc=1";; *) RES="$RES $C:rc=0";; esac
+  done
+else
+git -C /repo apply $SRC/patch.diff
 for C in $ID $EXTRA; do
   ./check $C quick --no-evidence > $S/check_$C.log 2>&1; RC=$?
   V=$(grep -c "^VIOLATION property=$C" $S/check_$C.log)
@@ -49,6 +58,7 @@ for C in $ID $EXTRA; do
 done
 git -C /repo checkout -- .
 git -C /repo status --short | grep -v "^??" | head -3
+fi
 mkdir -p $DST
 cp $SRC/patch.diff $DST/patch.diff
 cp $SRC/demo.py $DST/demo.py
@@ -60,7 +70,7 @@ m['confirmed_by_harness_author']={
   'demo_exit_with_change':int(DM),'demo_exit_without_change':int(DC),
   'tests_with_change':TESTS,'unexpected_test_failures':FAILED,
   'checks_run':RES.strip(),
-  'procedure':'scratch copies of /repo HEAD with/without patch.diff: demo.py and the six main test files; then git -C /repo apply, ./check <ID> quick, git -C /repo checkout -- .'}
+  'procedure':'scratch copies of /repo HEAD with/without patch.diff: demo.py and the six main test files; then '+('the quick check against a scratch copy of /repo with the patch applied (tools/trypatch.py)' if __import__('os').environ.get('SCRATCH_CHECK') else 'git -C /repo apply, ./check <ID> quick, git -C /repo checkout -- .')}
 json.dump(m,open(f'{DST}/meta.json','w'),indent=1)
 PY
 rm -rf $S
